@@ -47,7 +47,7 @@ def plan(tier):
                 "random order and repeated, at searched+1, |t|-1, |t|, |t|+3 (refused when not searched) and - single-word "
                 "version - at arbitrary searched ends; exhaustive over {a,b} (|p|<=3, |t|<=4/5, every k<=|p|) plus "
                 "|p| in {3,5,7,8,9,15,16,17,24,32,33,40,63,64,65,100} with u8..u64 words, texts of 100-120 symbols (ring "
-                "buffer wraps), texts beginning inside the pattern, the pattern stretched by d inserted symbols with k=d+1 (alignments as long as the ring buffer allows), k>=|p|, k=255, stale store after a larger search; reuse after an eager search over a text disjoint from the pattern's alphabet followed by hits at text position 0 with more than one block of leading insertions (2-3 blocks, u8/u16); hits of distance exactly k whose edits all lie left of a block seam. distinct_nontrivial counts searches (object, text, k, mode) "
+                "buffer wraps), texts beginning inside the pattern, the pattern stretched by d inserted symbols with k=d+1 (alignments as long as the ring buffer allows), k>=|p|, k=255, stale store after a larger search; reuse after an eager search over a text disjoint from the pattern's alphabet followed by hits at text position 0 with more than one block of leading insertions (2-3 blocks, u8/u16); hits of distance exactly k whose edits all lie left of a block seam (head v x c^r | B against v* c^(r+1) B, enumerated over u8/u16 blocks, seams, k<=3, r<=3); unary runs filling the leading blocks with a longer run in the text (k=0) or one substitution. distinct_nontrivial counts searches (object, text, k, mode) "
                 "in which some reported path mixes matches and edits",
         "bounds": {"mc": "store machine: Sym={0,1}, |p|<=3, |t|<=4/5, k<=3, eager and lazy, second search after two first "
                          "searches; banded store of the block version: W=2, |p|<=5/6, |t|<=4/5, k in {-1,0,1,2,|p|} / every k; "
